@@ -1,0 +1,95 @@
+//go:build verif
+
+package loom
+
+import (
+	"sync/atomic"
+	"time"
+	"unsafe"
+)
+
+// VerifHook, when set, is called before every shared-memory access of the lock-free code
+// (site = which access, p = the address about to be accessed). The verification harness
+// parks the calling goroutine in it to drive interleavings deterministically.
+var VerifHook func(site int, p unsafe.Pointer)
+
+func verifYield(site int, p unsafe.Pointer) {
+	if h := VerifHook; h != nil {
+		h(site, p)
+	}
+}
+
+// Sites
+const (
+	VerifQueueLoad = 1 + iota
+	VerifQueueCas
+	VerifWheelLoadPos
+	VerifWheelLoadSlot
+	VerifWheelStoreSlot
+	VerifWheelStorePos
+	VerifWheelClose
+	VerifMutexCas1
+	VerifMutexLoad
+	VerifMutexCas2
+	VerifFlagLoad
+	VerifFlagCas
+	VerifAddIfLoad
+	VerifAddIfCas
+)
+
+// VerifQueueAddrs exposes the addresses of head and tail (to classify hook pointers).
+func (q *Queue) VerifQueueAddrs() (head, tail unsafe.Pointer) {
+	return unsafe.Pointer(&q.head), unsafe.Pointer(&q.tail)
+}
+
+// VerifNodeOfNext maps the address of a node's next field back to the node's address.
+func VerifNodeOfNext(p unsafe.Pointer) unsafe.Pointer {
+	return unsafe.Pointer(uintptr(p) - unsafe.Offsetof(node{}.next))
+}
+
+// VerifQueueHeadTail returns the current head and tail node addresses.
+func (q *Queue) VerifQueueHeadTail() (head, tail unsafe.Pointer) {
+	return atomic.LoadPointer(&q.head), atomic.LoadPointer(&q.tail)
+}
+
+// VerifNewWheelNoLoop builds a wheel exactly like NewWheel but does not start the ticker
+// goroutine; ticks are driven by VerifTick.
+func VerifNewWheelNoLoop(step time.Duration, bucketNum int) *Wheel {
+	var wheel = &Wheel{
+		step:        step,
+		maxTimeout:  step * time.Duration(bucketNum),
+		bucketsSize: bucketNum,
+	}
+
+	var channels = make([]unsafe.Pointer, bucketNum)
+	for i := range channels {
+		channels[i] = unsafe.Pointer(&wheelData{c: make(chan struct{})})
+	}
+
+	wheel.channels = channels
+	return wheel
+}
+
+// VerifTick performs one synchronous tick.
+func (wheel *Wheel) VerifTick() { wheel.onTicker() }
+
+// VerifSlotChan returns the channel currently installed in slot i.
+func (wheel *Wheel) VerifSlotChan(i int) <-chan struct{} {
+	return (*wheelData)(atomic.LoadPointer(&wheel.channels[i])).c
+}
+
+// VerifSlotAddr returns the address of slot i (to classify hook pointers).
+func (wheel *Wheel) VerifSlotAddr(i int) unsafe.Pointer { return unsafe.Pointer(&wheel.channels[i]) }
+
+// VerifPosAddr returns the address of the position word.
+func (wheel *Wheel) VerifPosAddr() unsafe.Pointer { return unsafe.Pointer(&wheel.position) }
+
+// VerifMutexWord returns the raw state word of the embedded sync.Mutex.
+func (m *Mutex) VerifMutexWord() int32 {
+	return atomic.LoadInt32((*int32)(unsafe.Pointer(&m.Mutex)))
+}
+
+// VerifSetMutexWord overwrites the raw state word (to construct states for Count).
+func (m *Mutex) VerifSetMutexWord(v int32) {
+	atomic.StoreInt32((*int32)(unsafe.Pointer(&m.Mutex)), v)
+}
